@@ -251,3 +251,9 @@ PROPS["C05"] = dict(
         seeded("reverse", "sdpx", "^TestC05Reverse$", 8000 if tier == "quick" else 100000, 1 if tier == "quick" else 8, timeout=1800),
     ],
 )
+
+_c16_jobs = PROPS["C16"]["jobs"]
+PROPS["C16"]["jobs"] = lambda tier: _c16_jobs(tier) + [
+    seeded("procseq", "unit", "^TestC16ProcSeq$", 1500 if tier == "quick" else 20000, 1 if tier == "quick" else 4, timeout=1800)]
+PROPS["C16"]["rule"] += (" (procseq) sequential programs of <=24 operations over {push, Start, Close} incl. Close before Start and Start after "
+                         "Close, compared step by step with a model: nothing executes after Close returned.")
